@@ -81,6 +81,13 @@ CLAIMED = {
             'point on the event-loop front-ends (ownership). Interleavings of several connections are NOT explored (not applicable to this family).',
             'Three known findings: Twisted UDP should_respond; threaded server executes requests without a lock (directed two-thread lost-update witness); '
             'datagram front-ends share one framer between peers.', 'contract-based deductive verification + ownership obligations', 'DESIGN.md section 4 C17'),
+    'C20': ('proof', 'DeviceInformationFactory.get returns exactly the non-empty objects of the category from the requested id onward, ascending, with exact values '
+            '(basic and regular categories: all 2^7 population patterns x all start ids - complete; extended: population patterns over objects 0,2,6,0x80,0x81,0xFF); '
+            'ReadDeviceInformationResponse.encode emits exactly the longest prefix that keeps the PDU <= 253 bytes with the S-PAGE more-follows / next-object-id '
+            '(0..7 objects, symbolic ascending ids, values of any length 1..245, byte-exact); one chain step makes progress and points at the first unsent object, '
+            'so by induction the chain terminates and delivers every object once. One known finding (245-byte value never fits).',
+            'Extended category bounded in the NUMBER of populated extended objects (3). Client-side decode of the response is covered by the bounded C01/C02 stand-in. '
+            'S-PAGE transcription; A1-A10; z3/cvc5.', 'contract-based deductive verification (pyvc VC generation from /repo AST + z3/cvc5)', 'DESIGN.md section 4 C20'),
 }
 NOT_YET = 'check not built yet at this commit (planned: contract-based, see DESIGN.md section 4)'
 ALL = ['C%02d' % i for i in range(1, 21)]
